@@ -7,7 +7,7 @@ ID = 'C06'
 EXES = ['release']
 RULE = ('each event is one public Fq/Fr call (operator in one of its six forms, neg, inverse, pow, is_zero, is_even, ==) on '
         'operands drawn from limb-pattern classes (canonical and Montgomery-targeted), related pairs (a,a) (a,-a) (a,a+-1) '
-        '(a,2^256-a), pairs and squares aimed at Montgomery quotient digits in {0, 1, 2^63, 2^64-1}, fixed boundary values and uniform values; the internal Fq squaring / doubling / tripling / halving through the cfg hook; the answer is compared with Python integer arithmetic mod p. '
+        '(a,2^256-a), pairs and squares aimed at Montgomery quotient digits in {0, 1, 2^63, 2^64-1}, pairs and squares solved so that the UNREDUCED accumulator (A*B+K*p)/2^256 equals a boundary value (p, 2^256, 2^256+small, zero/all-ones limbs), pairs (a, c/a) with a boundary product, fixed boundary values and uniform values; the internal Fq squaring / doubling / tripling / halving through the cfg hook; the answer is compared with Python integer arithmetic mod p. '
         'distinct = distinct (op, form, operands); non-trivial = not both operands in {0, 1}')
 ASSUMPTIONS = ['operands enter through the 32-byte from_slice path and leave through to_slice (both judged on their own in C13/C07)']
 
@@ -57,11 +57,33 @@ def run(ctx, spec):
             lines.append('_ %s.neg.%s %s' % (f, fm, h32(a)))
             exp.append(('%s.neg.%s' % (f, fm), 'ok ' + h32((-a) % p), (op, fm, a), a > 1, pc))
         elif op == 'inverse':
-            if rng.random() < 0.05:
+            kk = rng.random()
+            if kk < 0.05:
                 a = 0
+            elif kk < 0.45:
+                # result-directed: the INVERSE (and its double / half, the last cofactors of the binary Euclid) has boundary limbs,
+                # in the canonical or in the Montgomery domain
+                y = gen.field_value(rng, p)[0]
+                if rng.random() < 0.5:
+                    m = gen.limb_value(rng, p)
+                    if rng.random() < 0.5:
+                        m |= gen.M64 << (64 * rng.randrange(4))        # a limb of all ones
+                    y = rm.unmont(m % p, p)
+                y = y * rng.choice([1, 2, pow(2, -1, p), 4]) % p
+                if y:
+                    a = pow(y, -1, p)
+                    pc = 'inverse-directed'
             lines.append('_ %s.inverse %s' % (f, h32(a)))
             exp.append(('%s.inverse' % f + ('/zero' if a == 0 else ''), 'none' if a == 0 else 'ok ' + h32(pow(a, -1, p)), (op, a), a > 1, pc))
         elif op == 'pow':
+            if rng.random() < 0.3:
+                # small exponents on bases aimed at the dedicated squaring routine (the only public route to it in Fr):
+                # unreduced square accumulator at a boundary, or Montgomery quotient digits 0 / 2^64-1
+                got = gen.unreduced_square(rng, p) if rng.random() < 0.6 else (gen.mont_digit_square(rng, p), None)
+                if got:
+                    a = got[0]
+                    b = rng.choice([2, 2, 3, 4, 5, 65537])
+                    pc = 'square-directed'
             lines.append('_ %s.pow %s %s' % (f, h32(a), h32(b)))
             exp.append(('%s.pow' % f, 'ok ' + h32(pow(a, b, p)), (op, a, b), a > 1 and b > 1, pc))
         elif op == 'is_zero':
@@ -79,9 +101,15 @@ def run(ctx, spec):
             # the dedicated squaring / doubling / halving used inside point and tower arithmetic (cfg hook), Fq only
             which = rng.randrange(5)
             if which < 2:
-                if rng.random() < 0.5:
+                kk = rng.random()
+                if kk < 0.35:
                     a = gen.mont_digit_square(rng, q)
                     pc = 'mont-digits-square'
+                elif kk < 0.7:
+                    got = gen.unreduced_square(rng, q)
+                    if got:
+                        a = got[0]
+                        pc = 'unreduced-target-square'
                 lines.append('_ raw.fq.sqr %s' % h32(a))
                 exp.append(('fq.raw.sqr', 'ok ' + h32(a * a % q), ('sqr', a), a > 1, pc))
             elif which == 2:
